@@ -17,7 +17,9 @@ EXPLANATION = (
     "each op; R01.3 the operator tables of funsor.syntax (symbol, op, ast node) agree row by row with the data model; R01.4 reduction "
     "over variables the operand does not mention compensates with the n-fold power of the REDUCTION op - decided by specialising "
     "each of the four sites to every concrete associative op (branch conditions on op identity/class/table membership are evaluated "
-    "from the catalogue) and comparing the compensation with axioms.power_of. NOT decided: that a rule's arithmetic on values, "
+    "from the catalogue) and comparing the compensation with axioms.power_of; R01.5 the count that normalises `mean` ranges over exactly "
+    "the variables the add-reduction sums (same reaching definitions); R01.6/R01.7 = R02.1/R02.2 because the default interpretation "
+    "layers eager over normalize, so unit-elimination and inverse/involution rewrites are steps of eager evaluation. NOT decided: that a rule's arithmetic on values, "
     "alignment and broadcasting are right."
 )
 ASSUMPTIONS = ["funsorlint/axioms.py", "the Python data model for operator dunders"]
@@ -42,4 +44,9 @@ def run(prog: Program, col: Collector, tier: str, refs: Optional[Refs] = None, c
             col.check(axioms.FOLD.get(k) == v, construct, f"fold of {k} is {v}", f"{norm(e.key)} ({k}) is reduced with {norm(e.value)} ({v}); its fold is {axioms.FOLD.get(k)}", e.loc)
     algebra.r_syntax_tables(prog, col, refs, cat, "R01.3")
     algebra.r_power(prog, col, refs, cat, "R01.4")
+    algebra.r_mean_scale(prog, col, refs, cat, "R01.5")
+    # eager = Prioritized(eager_base, normalize_base, reflect): the normalising rewrites are steps of eager evaluation too
+    algebra.r_unit_elimination(prog, col, refs, cat, "R01.6")
+    algebra.r_inverse_rules(prog, col, refs, cat, "R01.7")
+    algebra.r_pushdown(prog, col, refs, cat, "R01.8")
     return col
